@@ -839,7 +839,7 @@ package mcp
 // output schema; output that fails it is an error, not a result.
 //@ func toolForErr$1 [C16]
 //@   track applySchema as schema
-//@   track json.Unmarshal as decode
+//@   track internal/json.Unmarshal as decode
 //@   track h as handler
 //@   track json.Marshal as encode
 //@   track SetError as toolError
@@ -867,10 +867,13 @@ package mcp
 //@ func applySchema [C16]
 //@   track ApplyDefaults as defaults
 //@   track Validate as validate
+//@   track encoding/json.Marshal as encode
 //@   modifies extern
 //@   ensures @no-schema-passes-through resolved == nil ==> result.1 == nil && result.0 == data
 //@   ensures @result-only-if-the-schema-validates resolved != nil && result.1 == nil ==> calls(validate) == 1 && callResult(validate, 1, 0) == nil && callArg(validate, 1, 0) == resolved
 //@   ensures @validation-failure-is-an-error calls(validate) == 1 && callResult(validate, 1, 0) != nil ==> result.1 != nil && len(result.0) == 0
 //@   ensures @defaults-applied-to-the-validated-value calls(defaults) <= 1 && (calls(defaults) == 1 && calls(validate) == 1 ==> callArg(defaults, 1, 0) == resolved && callArg(defaults, 1, 1) == callArg(validate, 1, 1))
 //@   ensures @defaults-failure-is-an-error calls(defaults) == 1 && callResult(defaults, 1, 0) != nil ==> result.1 != nil && calls(validate) == 0
+//@   ensures @defaulted-value-is-what-is-returned calls(defaults) == 1 && result.1 == nil ==> calls(encode) == 1 && callResult(encode, 1, 1) == nil && result.0 == callResult(encode, 1, 0)
+//@   ensures @untouched-value-passes-through calls(defaults) == 0 && result.1 == nil ==> result.0 == data
 //@   assert at call Validate: @defaults-come-first calls(validate) == 0
